@@ -289,12 +289,13 @@ def model_and_export(fams, extra, max_tb):
   return r
 
 
-def simulate(fam, num, seed, max_tb, extra):
+def simulate(fams, num, seed, max_tb, extra):
+  """Random long histories of the two-phase families (the initial state picks the family)."""
   depth = 2 * (16 + extra) + 2
-  r = tlc.run("ErrorLog", cfg((fam,), extra, "hist", max_tb, INVS + ("ExportHist",)), workers=1,
+  r = tlc.run("ErrorLog", cfg(fams, extra, "hist", max_tb, INVS + ("ExportHist",)), workers=1,
               timeout=6000, heap="3g", simulate="num=%d" % num, depth=depth, seed=seed)
   if r.violated:
-    raise common.Machinery("ErrorLog.tla (simulation %s) violates %s:\n%s" % (fam, r.violated, r.error_trace[:3000]))
+    raise common.Machinery("ErrorLog.tla (simulation %r) violates %s:\n%s" % (fams, r.violated, r.error_trace[:3000]))
   return r
 
 
@@ -386,7 +387,10 @@ def compute(seed, thorough, histories=None, real=None):
     nsim = 1500 if thorough else 60
     with cf.ThreadPoolExecutor(max_workers=4) as ex:
       fm = [ex.submit(model_and_export, fams, extra, max_tb) for fams in MODEL_RUNS]
-      fs = [ex.submit(simulate, f, nsim, seed * 10 + n + 1, max_tb, extra) for n, f in enumerate(SIM_FAMILIES)]
+      if thorough:
+        fs = [ex.submit(simulate, (f,), nsim, seed * 10 + n + 1, max_tb, extra) for n, f in enumerate(SIM_FAMILIES)]
+      else:
+        fs = [ex.submit(simulate, SIM_FAMILIES, nsim * len(SIM_FAMILIES), seed * 10 + 1, max_tb, extra)]
       rms = [f.result() for f in fm]
       rs = [f.result() for f in fs]
     puts["errorlog_states"] = sum(r.distinct for r in rms)
@@ -410,11 +414,13 @@ def compute(seed, thorough, histories=None, real=None):
     res["requires"].append((set(per) == set(MODEL_FAMILIES) and ntrans >= 2000,
                             "error-log model exported only %d transitions (%r)" % (ntrans, per)))
     nh = 0
-    for f, r in zip(SIM_FAMILIES, rs):
-      res["requires"].append((len(r.cases) >= nsim // 2, "simulation %s produced only %d histories" % (f, len(r.cases))))
-      for n, c in enumerate(r.cases):
-        cases.append({"f": c["f"], "from": 1, "h": resolve(c["h"], n), "alts": []})
-        nh += 1
+    sims = [c for r in rs for c in r.cases]
+    for f in SIM_FAMILIES:
+      k = sum(1 for c in sims if c["f"] == f)
+      res["requires"].append((k >= nsim // 3, "simulation %s produced only %d histories" % (f, k)))
+    for n, c in enumerate(sims):
+      cases.append({"f": c["f"], "from": 1, "h": resolve(c["h"], n), "alts": []})
+      nh += 1
     puts["errorlog_transitions_replayed"] = ntrans
     puts["errorlog_histories"] = nh
   else:
@@ -451,7 +457,7 @@ def compute(seed, thorough, histories=None, real=None):
 
   # ---- TLC judges the real states
   t2 = time.time()
-  lines = judge(real, cases, cmps, max_tb, shards=4 if thorough else 3)
+  lines = judge(real, cases, cmps, max_tb, shards=4 if thorough else 2)
   puts["errorlog_judge_s"] = round(time.time() - t2, 1)
   puts["errorlog_cmp_pairs"] = len(cmps)
   # P2..P4 are properties of a state: inside one walked history a clause is attributed to the
